@@ -352,6 +352,9 @@ func C17(r *h.Run) {
 		}
 		files = append(files, gFile{Package: "acme.v1", GoPackage: "example.com/gen/casepairs;casepairs", Services: []gService{{Name: "Users", Methods: ms}}})
 	}
+	// services without methods (valid; next to others and alone)
+	files = append(files, gFile{Package: "acme.v1", GoPackage: "example.com/gen/casepairs;casepairs", Services: []gService{{Name: "AdminService"}, {Name: "Users", Methods: []gMethod{{Name: "Get"}}}}})
+	files = append(files, gFile{Package: "", GoPackage: "example.com/gen/casepairs;casepairs", Services: []gService{{Name: "Empty"}}})
 	collides := func(gp string) bool {
 		if strings.HasSuffix(gp, ";casepairs") {
 			return true // (always compiled)
